@@ -344,5 +344,5 @@ func c07Run(w *W) {
 }
 
 func init() {
-	register(&Scenario{Name: "surveyor-responses", Prop: "C07", Horizon: 2 * time.Hour, Run: c07Run})
+	register(&Scenario{Name: "surveyor-responses", Prop: "C07", Horizon: 2 * time.Hour, Weight: 40, Run: c07Run})
 }
